@@ -834,7 +834,7 @@ func (s *Identity) PrefixedName() string {
 
 // modulePrefixedName returns the module-qualified name for the identity.
 func (s *Identity) modulePrefixedName() string {
-	return fmt.Sprintf("%s:%s", module(s).Name, s.Name)
+	return fmt.Sprintf("%s:%s", moduleName(s), s.Name)
 }
 
 // IsDefined behaves the same as the implementation for Enum - it returns
